@@ -31,7 +31,10 @@ def handle : Handler
   | "mpf_get_str13", .num base :: .num nd :: rest =>
       if ¬ getBaseOk base ∨ nd < 0 then none else
       match opnd? rest with
-      | some (u, []) => let g := get_str base nd.toNat u; some [strOf g.1, .num g.2]
+      | some (u, []) =>
+          -- the hypotheses of theorem get_digits_accuracy are evaluated on every line
+          if u.d.length ≠ 0 ∧ ¬ adequate base.natAbs nd.toNat u then some [.err "adequacy"] else
+          let g := get_str base nd.toNat u; some [strOf g.1, .num g.2]
       | _ => none
   | "mpf_str_roundtrip13", .num base :: rest =>
       if ¬ getBaseOk base then none else
